@@ -1020,7 +1020,59 @@ def closed_handler_case(kind):
     return None
 
 
+def two_pool_handlers_case(kind):
+    """Two pool handlers alive in ONE process (two engines in one program): the older one executes its actions after the
+    newer one was constructed.  Every handler reports exactly the actions handed to IT, each once, with its own outcome."""
+    def make():
+        return BoboActionHandlerMultithreading(threads=2) if kind == "thread" else make_handler("process", 2, 0)
+    first = make()
+    second = make()
+    table = {}
+    handed = {0: [], 1: []}
+    try:
+        for which, h in ((0, first), (1, second), (0, first)):
+            for k in range(2):
+                eid = 100 * which + len(handed[which]) + 1
+                table["e%d" % eid] = (k % 2 == 0, 5000 + eid, 0.02 * (k + 1))
+                handed[which].append(eid)
+                h.handle(TabAction("t%d" % eid, table), mk_event(eid, 7, 17))
+        got = {0: [], 1: []}
+        t0 = time.time()
+        while time.time() - t0 < 8 and (len(got[0]) < len(handed[0]) or len(got[1]) < len(handed[1])):
+            for which, h in ((0, first), (1, second)):
+                r = h.get_handler_response()
+                while r is not None:
+                    got[which].append((int(r.complex_event.event_id[1:]), r.action_name, r.success, r.data))
+                    r = h.get_handler_response()
+            time.sleep(0.02)
+        time.sleep(0.1)
+        for which, h in ((0, first), (1, second)):
+            r = h.get_handler_response()
+            while r is not None:
+                got[which].append((int(r.complex_event.event_id[1:]), r.action_name, r.success, r.data))
+                r = h.get_handler_response()
+    finally:
+        close_handler(first)
+        close_handler(second)
+    for which in (0, 1):
+        want = sorted((e, "t%d" % e, table["e%d" % e][0], table["e%d" % e][1]) for e in handed[which])
+        if sorted(got[which]) != want:
+            return ("the %s handler was handed the actions of events %s and reported %s"
+                    % ("older" if which == 0 else "newer", handed[which], sorted(x[0] for x in got[which])))
+    return None
+
+
 def run(ctx, res):
+    for kind in ("thread", "process"):
+        try:
+            bad = two_pool_handlers_case(kind)
+        except Exception as ex:      # noqa
+            bad = "%s: %s" % (type(ex).__name__, ex)
+        res.note_case(("two-pool-handlers", kind), True)
+        if bad:
+            res.failures.append(dict(signature="response-reported-by-another-handler", detail=None,
+                                     what="two %s handlers alive in one process: %s" % (kind, bad),
+                                     case=dict(kind="two-pool-handlers", handler=kind)))
     for kind in ("blocking", "thread", "process"):
         bad = closed_handler_case(kind)
         res.note_case(("closed-handler", kind), True)
@@ -1290,6 +1342,10 @@ def replay(obj):
     if (obj.get("case") or {}).get("kind") == "closed-handler":
         bad = closed_handler_case(obj["case"]["handler"])
         print("oracle:", bad or "every hand-over after close() either raised or was answered once")
+        return 1 if bad else 0
+    if (obj.get("case") or {}).get("kind") == "two-pool-handlers":
+        bad = two_pool_handlers_case(obj["case"]["handler"])
+        print("oracle:", bad or "each handler reported exactly the actions handed to it, once, with their own outcomes")
         return 1 if bad else 0
     if (obj.get("case") or {}).get("kind") == "blocking-two-threads":
         bad = blocking_two_threads(obj["case"]["n_later"])
